@@ -106,6 +106,16 @@ let replay (cs : case) (lines : (int * string) list) : int =
         | None -> ())
     | _ -> ()
   in
+  (* A PRE event is logged when the worker ARRIVES at its park point; the operation itself runs when the
+     controller releases the worker, i.e. immediately before that worker's next logged event (all other
+     workers are parked in between).  So the model step of a PRE event is deferred to that moment. *)
+  let pending : (int, unit -> unit) Hashtbl.t = Hashtbl.create 8 in
+  let flush tid =
+    match Hashtbl.find_opt pending tid with
+    | Some f -> Hashtbl.remove pending tid; f ()
+    | None -> ()
+  in
+  let defer tid f = flush tid; Hashtbl.replace pending tid f in
   let nev = ref 0 in
   let expect tid what ok = if not ok then bad "thread %d: the implementation does `%s` but the model is elsewhere" tid what in
   let neq a b = not (BinNat.N.eqb a b) in
@@ -120,10 +130,12 @@ let replay (cs : case) (lines : (int * string) list) : int =
             else bad "more than one initial block"
         | "CALL" ->
             let tid = int_of_string a.(1) in
+            flush tid;
             expect tid "start a call" (pc tid = Conc.PIdle);
-            step_once tid; eager tid
+            defer tid (fun () -> step_once tid; eager tid)
         | "RET" ->
             let tid = int_of_string a.(1) in
+            flush tid;
             (match pc tid with Conc.PResolve _ -> step_once tid | _ -> ());
             expect tid "return from a call" (pc tid = Conc.PIdle);
             (match (thread tid).Conc.t_outs with
@@ -134,40 +146,41 @@ let replay (cs : case) (lines : (int * string) list) : int =
         | "EV" -> (
             incr nev;
             let tid = int_of_string a.(1) and site = int_of_string a.(2) in
+            flush tid;
             let x = a.(3) and y = a.(4) in
             let nx () = n_of_string x and ny () = n_of_string y in
             match site with
-            | 1 -> expect tid "map.get" (match pc tid with Conc.PFast _ -> true | _ -> false); step_once tid; eager tid
+            | 1 -> expect tid "map.get" (match pc tid with Conc.PFast _ -> true | _ -> false); defer tid (fun () -> step_once tid; eager tid)
             | 2 ->
                 if x = "1" then (
                   match (pc tid, (thread tid).Conc.t_outs) with
                   | Conc.PIdle, (_, Conc.ROk k) :: _ when BinNat.N.eqb k (ny ()) -> ()
                   | _ -> bad "thread %d: map.get found key %s; the model did not" tid y)
                 else expect tid "map.get = None" (match pc tid with Conc.PLock _ | Conc.PEntry _ -> true | _ -> false)
-            | 3 -> expect tid "shard.write()" (match pc tid with Conc.PLock _ -> true | _ -> false); step_once tid; eager tid
+            | 3 -> expect tid "shard.write()" (match pc tid with Conc.PLock _ -> true | _ -> false); defer tid (fun () -> step_once tid; eager tid)
             | 4 -> expect tid "vacant slot under the lock" (match pc tid with Conc.PStore _ | Conc.PKeyAdd _ -> true | _ -> false)
-            | 5 -> expect tid "key.fetch_add" (match pc tid with Conc.PKeyAdd _ | Conc.PSKeyAdd _ -> true | _ -> false); step_once tid; eager tid
+            | 5 -> expect tid "key.fetch_add" (match pc tid with Conc.PKeyAdd _ | Conc.PSKeyAdd _ -> true | _ -> false); defer tid (fun () -> step_once tid; eager tid)
             | 7 ->
                 (match pc tid with
                 | Conc.PStrs (_, _, k) -> if neq k (nx ()) then bad "thread %d inserts key %s, the model drew %s" tid x (string_of_n k)
                 | _ -> bad "thread %d: strings.insert but the model is elsewhere" tid);
-                step_once tid; eager tid
+                defer tid (fun () -> step_once tid; eager tid)
             | 8 ->
                 (match pc tid with
                 | Conc.PMap (_, _, k) -> if neq k (nx ()) then bad "thread %d publishes key %s, the model has %s" tid x (string_of_n k)
                 | _ -> bad "thread %d: map insert but the model is elsewhere" tid);
-                step_once tid; eager tid
-            | 9 -> expect tid "map.entry" (match pc tid with Conc.PEntry _ -> true | _ -> false); step_once tid; eager tid
+                defer tid (fun () -> step_once tid; eager tid)
+            | 9 -> expect tid "map.entry" (match pc tid with Conc.PEntry _ -> true | _ -> false); defer tid (fun () -> step_once tid; eager tid)
             | 10 -> expect tid "vacant entry" (match pc tid with Conc.PSKeyAdd _ -> true | _ -> false)
-            | 11 -> expect tid "strings.get" (match pc tid with Conc.PResolve _ -> true | _ -> false); step_once tid; eager tid
+            | 11 -> expect tid "strings.get" (match pc tid with Conc.PResolve _ -> true | _ -> false); defer tid (fun () -> step_once tid; eager tid)
             | 12 -> ()
-            | 20 -> (match pc tid with Conc.PStore (_, Conc.SHead) -> step_once tid; eager tid | _ -> ())
+            | 20 -> (match pc tid with Conc.PStore (_, Conc.SHead) -> defer tid (fun () -> step_once tid; eager tid) | _ -> ())
             | 21 -> ()
             | 22 ->
                 (match pc tid with
                 | Conc.PStore (_, Conc.SLen (b, _)) -> if neq b (bid_of x) then bad "thread %d loads the length of another block than the model" tid
                 | _ -> bad "thread %d: len.load but the model is elsewhere" tid);
-                step_once tid
+                defer tid (fun () -> step_once tid)
             | 23 ->
                 (match pc tid with
                 | Conc.PStore (_, Conc.SCas (_, seen, _, _)) -> if neq seen (ny ()) then bad "thread %d loaded len %s, the model has %s" tid y (string_of_n seen)
@@ -177,7 +190,7 @@ let replay (cs : case) (lines : (int * string) list) : int =
                 (match pc tid with
                 | Conc.PStore (_, Conc.SCas (_, seen, _, _)) -> if neq seen (nx ()) then bad "thread %d CAS expects %s, the model %s" tid x (string_of_n seen)
                 | _ -> bad "thread %d: len CAS but the model is elsewhere (the model says the string does not fit or the retry budget is used up)" tid);
-                step_once tid; eager tid
+                defer tid (fun () -> step_once tid; eager tid)
             | 25 ->
                 if x = "1" then
                   (match pc tid with
@@ -187,30 +200,30 @@ let replay (cs : case) (lines : (int * string) list) : int =
                   | Conc.PKeyAdd _ -> bad "thread %d: CAS failed in the implementation but succeeded in the model" tid
                   | _ -> ())
             | 26 -> expect tid "bucket_capacity.load" (match pc tid with Conc.PStore (_, Conc.SBcap) -> true | _ -> false);
-                    step_once tid
+                    defer tid (fun () -> step_once tid)
             | 27 -> ()
             | 28 ->
-                if x = "1" then (expect tid "allocate_memory" (match pc tid with Conc.PStore (_, Conc.SAllocLoad _) -> true | _ -> false); step_once tid)
-                else (expect tid "memory_usage.load" (match pc tid with Conc.PStore (_, Conc.SUsage2 _) -> true | _ -> false); step_once tid)
+                if x = "1" then (expect tid "allocate_memory" (match pc tid with Conc.PStore (_, Conc.SAllocLoad _) -> true | _ -> false); defer tid (fun () -> step_once tid))
+                else (expect tid "memory_usage.load" (match pc tid with Conc.PStore (_, Conc.SUsage2 _) -> true | _ -> false); defer tid (fun () -> step_once tid))
             | 29 ->
                 (match pc tid with
                 | Conc.PStore (_, Conc.SAllocCas (cur, _, _, _)) -> if y = "1" && neq cur (nx ()) then bad "thread %d saw usage %s, the model %s" tid x (string_of_n cur)
                 | Conc.PStore (_, Conc.SLimit2 (_, u)) -> if neq u (nx ()) then bad "thread %d saw usage %s, the model %s" tid x (string_of_n u)
                 | _ -> ())
             | 30 ->
-                if x = "1" then (expect tid "limit check + usage CAS" (match pc tid with Conc.PStore (_, Conc.SAllocCas _) -> true | _ -> false); step_once tid; eager tid)
+                if x = "1" then (expect tid "limit check + usage CAS" (match pc tid with Conc.PStore (_, Conc.SAllocCas _) -> true | _ -> false); defer tid (fun () -> step_once tid; eager tid))
                 else (expect tid "max_memory_usage.load" (match pc tid with Conc.PStore (_, Conc.SLimit2 _) -> true | _ -> false);
-                      if false then (); step_once tid; eager tid)
+                      if false then (); defer tid (fun () -> step_once tid; eager tid))
             | 31 -> if neq !st.Conc.c_limit (nx ()) then bad "thread %d saw limit %s, the model %s" tid x (string_of_n !st.Conc.c_limit)
             | 33 -> ()
             | 34 ->
                 (match pc tid with
                 | Conc.PStore (_, Conc.SBcapStore next) -> if neq next (nx ()) then bad "thread %d stores capacity %s, the model %s" tid x (string_of_n next)
                 | _ -> bad "thread %d: bucket_capacity.store but the model is elsewhere" tid);
-                step_once tid
-            | 35 -> expect tid "head.load" (match pc tid with Conc.PStore (_, Conc.SPushLoad _) -> true | _ -> false); step_once tid
+                defer tid (fun () -> step_once tid)
+            | 35 -> expect tid "head.load" (match pc tid with Conc.PStore (_, Conc.SPushLoad _) -> true | _ -> false); defer tid (fun () -> step_once tid)
             | 36 -> ()
-            | 37 -> expect tid "head CAS" (match pc tid with Conc.PStore (_, Conc.SPushCas _) -> true | _ -> false); step_once tid; eager tid
+            | 37 -> expect tid "head CAS" (match pc tid with Conc.PStore (_, Conc.SPushCas _) -> true | _ -> false); defer tid (fun () -> step_once tid; eager tid)
             | 38 ->
                 if x = "1" then expect tid "head CAS succeeded" (match pc tid with Conc.PKeyAdd _ -> true | _ -> false)
                 else expect tid "head CAS failed" (match pc tid with Conc.PStore (_, Conc.SPushCas _) -> true | _ -> false)
@@ -222,7 +235,7 @@ let replay (cs : case) (lines : (int * string) list) : int =
                     step_once tid
                 | _ -> bad "thread %d allocates a block but the model is elsewhere" tid)
             | 40 -> ()
-            | 41 -> expect tid "limit.store" (match pc tid with Conc.PSetLimit _ -> true | _ -> false); step_once tid
+            | 41 -> expect tid "limit.store" (match pc tid with Conc.PSetLimit _ -> true | _ -> false); defer tid (fun () -> step_once tid)
             | _ -> ())
         | "FINAL" ->
             let get k =
@@ -230,6 +243,8 @@ let replay (cs : case) (lines : (int * string) list) : int =
               let t = L.find (starts_with pre) (Array.to_list a) in
               String.sub t (String.length pre) (String.length t - String.length pre)
             in
+            Hashtbl.iter (fun tid _ -> ()) pending;
+            L.iter flush (L.init (L.length !st.Conc.c_threads) (fun i -> i));
             let c = !st in
             if get "key" <> string_of_n c.Conc.c_key then bad "final key counter %s, model %s" (get "key") (string_of_n c.Conc.c_key);
             if get "cur" <> string_of_n c.Conc.c_usage then bad "final usage %s, model %s" (get "cur") (string_of_n c.Conc.c_usage);
@@ -259,7 +274,7 @@ let replay (cs : case) (lines : (int * string) list) : int =
                      let r =
                        match e.Conc.e_ref with
                        | Arena.REmpty -> "E"
-                       | Arena.RStatic (_, s) -> "S=" ^ hex_of_bytes s
+                       | Arena.RStatic (addr, s) -> "S" ^ string_of_n addr ^ "=" ^ hex_of_bytes s
                        | Arena.RArena (b, off, _) -> (
                            match Arena.read arena e.Conc.e_ref with
                            | Some s -> Printf.sprintf "A%s.%s=%s" (string_of_n b) (string_of_n off) (hex_of_bytes s)
